@@ -50,18 +50,62 @@ def build(ub, algebra_text):
             terms.append(f"(if ({conds}) && (({step_arg}) as int == k) && ({f}) {{ 1int }} else {{ 0int }})")
         ub.emitted.append(type(ub.emitted[0])(item.name + ":schedule", "item", ENC, item.line, 0, 0, sha256=""))
         return (f"pub open spec fn {item.name}_defs({params}, k: int, info: SmtSignalInfo) -> int {{\n{lets}    " + "\n    + ".join(terms) + "\n}\n")
-    ub.out(render(init_at, "step: Step", ""))
-    # unroll: locals prev_step / next_step / init_signals_defined are `let`s of the real text
+    # fields of `self` that init_at sets at its top level (`self.F = EXPR;`, EXPR over `step`): their value during the following unroll
+    # calls is EXPR[step := s] unless unroll assigns them itself (then they are not substituted and the check is undecided if read)
+    def top_level_field_stores(item):
+        T = code_toks(lex(item.body))
+        out = {}
+        depth = 0
+        for i, t in enumerate(T):
+            if t.kind == "punct" and t.text in "{([":
+                depth += 1
+            elif t.kind == "punct" and t.text in "})]":
+                depth -= 1
+            elif depth == 1 and t.text == "self" and i + 3 < len(T) and T[i + 1].text == "." and T[i + 3].text == "=" \
+                    and (i == 0 or T[i - 1].text in (";", "{", "}")):
+                j = i + 4
+                d = 0
+                while j < len(T):
+                    x = T[j]
+                    if x.kind == "punct" and x.text in "{([":
+                        d += 1
+                    elif x.kind == "punct" and x.text in "})]":
+                        d -= 1
+                    elif x.text == ";" and d == 0:
+                        break
+                    j += 1
+                out[T[i + 2].text] = item.body[T[i + 4].start:T[j - 1].end]
+        return out
+    init_fields = top_level_field_stores(init_at)
+    unroll_fields = top_level_field_stores(unroll)
+    def resolve(text, var_step, allow):
+        def sub(m):
+            f = m.group(1)
+            if f in allow:
+                return "(" + re.sub(r"\bstep\b", var_step, allow[f]) + ")"
+            return m.group(0)
+        return re.sub(r"\bself\.([a-z_][A-Za-z0-9_]*)\b(?!\s*\()", sub, text)
+    # inside init_at a field read after its store sees the stored value
+    init_text = render(init_at, "step: Step", "")
+    ub.out(resolve(init_text, "step", {k: v for k, v in init_fields.items()}))
     T = unroll.body
     m1 = re.search(r"let\s+prev_step\s*=\s*self\.current_step\.unwrap\(\)\s*;", T)
     m2 = re.search(r"let\s+next_step\s*=\s*([^;]+);", T)
     if not (m1 and m2):
         raise AnchorError("unroll: prev_step / next_step bindings not found")
     lets = f"    let next_step: int = {m2.group(1).strip()};\n"
-    m3 = re.search(r"let\s+init_signals_defined\s*=\s*([^;]+);", T)
-    if m3:
-        lets += f"    let init_signals_defined: bool = {m3.group(1).strip().replace('self.offset', 'offset')};\n"
-    ub.out(render(unroll, "offset: Option<Step>, prev_step: Step", lets))
+    for m3 in re.finditer(r"let\s+([a-z_][A-Za-z0-9_]*)\s*=\s*([^;]+);", T):
+        if m3.group(1) in ("prev_step", "next_step") or m3.start() > T.find("define_signals"):
+            continue
+        if "ctx" in m3.group(2) or "(" in m3.group(2).replace("Some(", "").replace("unwrap(", ""):
+            continue
+        lets += f"    let {m3.group(1)} = {m3.group(2).strip()};\n"
+    stable = {k: v for k, v in init_fields.items() if k not in unroll_fields}
+    unroll_text = render(unroll, "s: Step, prev_step: Step", lets)
+    unroll_text = resolve(unroll_text, "s", stable)
+    if re.search(r"\bself\b", unroll_text) or re.search(r"\bself\b", resolve(init_text, "step", init_fields)):
+        raise AnchorError("the define_signals schedule reads state of `self` that is not a top-level store of init_at")
+    ub.out(unroll_text)
     base = os.path.dirname(os.path.dirname(os.path.abspath(__file__)))
     ub.emit_raw("lemmas/encoding.rs")
     ub.out("} // verus!\nfn main() {}\n")
